@@ -91,6 +91,83 @@ fn well_formed(g: &HpoGroup, exp: &BTreeSet<u32>, what: &str) -> CheckResult {
     Ok(())
 }
 
+/// `well_formed` for groups of tens of thousands of ids (messages name the first difference only).
+fn well_formed_big(g: &HpoGroup, exp: &BTreeSet<u32>, what: &str) -> CheckResult {
+    let got: Vec<u32> = g.iter().map(|i| i.as_u32()).collect();
+    let want: Vec<u32> = exp.iter().copied().collect();
+    if got != want {
+        let pos = got.iter().zip(&want).position(|(a, b)| a != b).unwrap_or(got.len().min(want.len()));
+        return fail(format!("group/{what}/content"), format!("{what} on {} ids: iteration yields {} ids, expected {}; first difference at position {pos}: {:?} vs {:?}", want.len(), got.len(), want.len(), got.get(pos), want.get(pos)));
+    }
+    ensure!(g.len() == want.len() && g.is_empty() == want.is_empty(), format!("group/{what}/len"), "{what}: len {} != {}", g.len(), want.len());
+    for (i, v) in want.iter().enumerate().step_by(97).chain(want.iter().enumerate().rev().take(3)) {
+        ensure!(g.get(i).map(|x| x.as_u32()) == Some(*v), format!("group/{what}/get"), "{what}: get({i}) = {:?}, expected {v}", g.get(i));
+        ensure!(g.contains(&HpoTermId::from_u32(*v)), format!("group/{what}/contains"), "{what}: contains({v}) false ({} ids)", want.len());
+        let n = v.wrapping_add(1);
+        ensure!(g.contains(&HpoTermId::from_u32(n)) == exp.contains(&n), format!("group/{what}/contains"), "{what}: contains({n}) wrong ({} ids)", want.len());
+    }
+    ensure!(g.get(want.len()).is_none(), format!("group/{what}/get"), "{what}: get(len) is Some");
+    Ok(())
+}
+
+/// Groups around the 8-bit and 16-bit size borders: constructors from shuffled vectors with
+/// repetitions, operators in every direction, single-id insertion at both ends.
+pub fn check_big_groups(na: u32, nb: u32, stats: &mut Stats) -> CheckResult {
+    let a_ids: Vec<u32> = (0..na).map(|i| (i * 3) % 9_999_991).collect();
+    let b_ids: Vec<u32> = (0..nb).map(|i| (i * 5 + 1) % 9_999_991).collect();
+    // supply order: a multiplicative shuffle, every 10th id twice
+    let shuffled = |v: &[u32]| -> Vec<u32> {
+        let n = v.len().max(1);
+        let mut out = Vec::with_capacity(n + n / 10);
+        for i in 0..v.len() {
+            let x = v[(i * 7919 + 13) % n];
+            out.push(x);
+            if i % 10 == 0 {
+                out.push(x);
+            }
+        }
+        // 7919 is prime: a permutation unless n is a multiple of it
+        if n % 7919 == 0 { v.to_vec() } else { out }
+    };
+    let sa: BTreeSet<u32> = a_ids.iter().copied().collect();
+    let sb: BTreeSet<u32> = b_ids.iter().copied().collect();
+    let r = guarded(|| -> CheckResult {
+        let ga = HpoGroup::from(shuffled(&a_ids));
+        let gb: HpoGroup = shuffled(&b_ids).into_iter().map(HpoTermId::from_u32).collect();
+        well_formed_big(&ga, &sa, "constructor")?;
+        well_formed_big(&gb, &sb, "constructor")?;
+        let un: BTreeSet<u32> = sa.union(&sb).copied().collect();
+        let inter: BTreeSet<u32> = sa.intersection(&sb).copied().collect();
+        well_formed_big(&(&ga | &gb), &un, "bitor(&,&)")?;
+        well_formed_big(&(&gb | &ga), &un, "bitor(&,&)")?;
+        well_formed_big(&(&ga & &gb), &inter, "bitand(&,&)")?;
+        well_formed_big(&(&gb & &ga), &inter, "bitand(&,&)")?;
+        well_formed_big(&(&ga | &ga), &sa, "bitor(same-object)")?;
+        for id in [0u32, 1, 4, u32::MAX, 9_999_999] {
+            let mut plus = sa.clone();
+            plus.insert(id);
+            well_formed_big(&(&ga + HpoTermId::from_u32(id)), &plus, "add(&,id)")?;
+            let mut g2 = ga.clone();
+            let newly = g2.insert(id);
+            ensure!(newly != sa.contains(&id), "group/insert/return", "insert({id}) into {} ids returned {newly}", sa.len());
+            well_formed_big(&g2, &plus, "insert")?;
+        }
+        Ok(())
+    });
+    stats.eval(20);
+    match r {
+        Ok(r) => r?,
+        Err(p) => return fail("group/big/panic", format!("groups of {na} / {nb} ids: {p}")),
+    }
+    if na.max(nb) > 65_535 {
+        stats.label("group>65535-ids");
+    }
+    if na.max(nb) > 255 {
+        stats.label("group>255-ids");
+    }
+    Ok(())
+}
+
 fn check_ops(ops: &[Op], stats: &mut Stats) -> CheckResult {
     let mut g = HpoGroup::new();
     let mut m: BTreeSet<u32> = BTreeSet::new();
@@ -418,12 +495,31 @@ impl Property for C12 {
         }
     }
     fn required_labels(&self, _tier: Tier) -> Vec<&'static str> {
-        vec!["nontrivial", "ops:len>30", "pair:operand>30", "pair:equal-length", "pair:unbalanced-not-nested", "pair:disjoint", "pair:nested", "pair:equal", "pair:empty-operand", "terms:diamond"]
+        vec!["nontrivial", "ops:len>30", "pair:operand>30", "pair:equal-length", "pair:unbalanced-not-nested", "pair:disjoint", "pair:nested", "pair:equal", "pair:empty-operand", "terms:diamond", "group>255-ids", "group>65535-ids"]
     }
     fn run_generated(&self, tier: Tier, seed: u64, n: u64, stats: &mut Stats) -> Option<(Value, Failure)> {
         run_typed(strategy(tier), seed, n, stats, check)
     }
     fn replay(&self, case: &Value, stats: &mut Stats) -> Result<CheckResult, String> {
+        if let Some(b) = case.get("big_groups") {
+            let v: (u32, u32) = serde_json::from_value(b.clone()).map_err(|e| e.to_string())?;
+            stats.cases += 1;
+            return Ok(check_big_groups(v.0, v.1, stats));
+        }
         replay_typed::<Case, _>(case, stats, check)
+    }
+    fn extra(&self, tier: Tier, _seed: u64, stats: &mut Stats) -> Vec<(Value, Failure)> {
+        let mut sizes = vec![(255u32, 256u32), (256, 257), (300, 31), (65_535, 65_536), (65_537, 300), (70_000, 66_000)];
+        if tier == Tier::Thorough {
+            sizes.extend([(1_000_000, 70_000), (4096, 4097), (131_072, 131_071)]);
+        }
+        let mut out = Vec::new();
+        for (a, b) in sizes {
+            stats.cases += 1;
+            if let Err(f) = check_big_groups(a, b, stats) {
+                out.push((json!({"big_groups": (a, b)}), f));
+            }
+        }
+        out
     }
 }
